@@ -15,7 +15,10 @@ OBLIGATIONS = [
 # futex-wait loops of the helper / of rcu_barrier (shared with C02; late import via engine/check.py)
 def _shared():
     from obligations import C02 as _c02
-    return [o for o in _c02.OBLIGATIONS if o.name in ('C02.O3.completion_wait', 'C02.O3.call_rcu_wait')]
+    _r = [o for o in _c02.OBLIGATIONS if o.name in ('C02.O3.completion_wait', 'C02.O3.call_rcu_wait')]
+    from obligations import C10 as _c10
+    _r += [o for o in _c10.OBLIGATIONS if o.name in ('C10.O1.enqueue', 'C10.O1.splice', 'C10.O1.iter')]
+    return _r
 META = {
     'level': 'other',
     'explanation': 'rcu_barrier is correct if (a) every helper that can still run earlier callbacks gets exactly one marker behind them, (b) helpers run callbacks FIFO (C03.O2), (c) the count/futex handshake is sound, (d) a helper leaves the helper list only with an empty queue (C03.O4). Contracts decide each of these per function; list walks are bounded to <= 2 helpers. Termination of the wait is not decided.',
